@@ -160,3 +160,15 @@ CHECKS['C15'] = dict(
          'budget (hard stop), growth law steps(2n) <= 8*steps(n)+c.',
     note=STUBS + '; work in parso, jedi/api and the helper process is not counted; no verdict depends on wall time',
     technique='small-scope exhaustive enumeration of definition graphs with a deterministic step-count oracle')
+CHECKS['C14'] = dict(
+    text='Exhaustive fault-plan enumeration at the pipe seam of the real CompiledSubprocess: every '
+         'request index of the disturbed query x 7 phases (killed before send, killed after the '
+         'request was flushed, reply truncated at 1 / half / len-1 bytes, helper raises '
+         'KeyboardInterrupt / SystemExit) x up to 3 consecutive helper incarnations (quick: all '
+         '1-crash plans + the 3-crash diagonal; thorough: all 2-crash plans), followed by two '
+         'clean queries; plus all event histories of depth <= 5 (create/query/drop/gc/crash, <= 3 '
+         'live Scripts) against a reference model of the helper-side state count. Oracle: '
+         'InternalError only, at most one failure per crash, identical later answers, no zombie, '
+         'fd and thread counts back to baseline, no blocking read on a live silent peer.',
+    note=STUBS + '; automatic gc disabled and collected after every query so request counts depend on the history alone; get_signatures not used (3 s time cache pins inference states)',
+    technique='exhaustive crash-point / fault-sequence enumeration with injector at the pipe seam + history search against a reference model')
